@@ -288,6 +288,12 @@ def judge_table(ctx, tab, cfg, path, label, rng):
             ctx.violation("reconstruct", f"{label}: config_from_fits gives {'.'.join(parts)} = {b!r}, the run used {a!r}", dict(wit, field=".".join(parts)))
 
 
+def config_from_fits_public(path):
+    from nuspacesim.config import config_from_fits
+
+    return config_from_fits(path)
+
+
 def run(ctx):
     from astropy.table import Table
     from astropy.time import Time
@@ -367,9 +373,73 @@ def run(ctx):
             judge_table(ctx, sim, cfg, os.path.join(work, "r.fits"), f"real {cfg.simulation.mode} run #{k} ({len(sim)} rows, spectrum {cfg.simulation.spectrum.id})", rng)
             ctx.distinct.add(("run", k, len(sim)))
             ctx.count("real-runs")
+        # ---- the command-line path: `nuspacesim run cfg.toml N -o file` then `show-plot file`
+        import contextlib
+        import io
+
+        import dask
+        from click.testing import CliRunner
+        from nuspacesim.apps.cli import cli
+        from nuspacesim.config import create_toml
+
+        runner = CliRunner()
+        ncli = ctx.pick(2, 8)
+        for k in range(ncli):
+            cfg = NssConfig()
+            cfg.detector.initial_position.latitude, cfg.detector.initial_position.longitude = 0.3, -2.0
+            cfg.simulation.thrown_events = 40
+            argv = []
+            if k % 2:
+                argv += ["--powerspectrum", "2.5", "7", "10.5"]
+                exp_spec = Simulation.PowerSpectrum(index=2.5, lower_bound=7.0, upper_bound=10.5)
+            else:
+                argv += ["--monospectrum", "9.25"]
+                exp_spec = Simulation.MonoSpectrum(log_nu_energy=9.25)
+            if k % 3 == 1:
+                argv += ["--monocloud", "2.5"]
+            if k % 4 == 3:
+                argv += ["-w"]
+            toml = os.path.join(work, "cli.toml")
+            out = os.path.join(work, ["cli_out.fits", "cli_results"][k % 2 if k > 1 else 0] )
+            if os.path.exists(out):
+                os.remove(out)
+            create_toml(toml, cfg)
+            ctx.count("cli-run")
+            with dask.config.set(scheduler="synchronous"):
+                np.random.seed(100 + k)
+                res = runner.invoke(cli, ["run", toml, "55", "-o", out] + argv)
+            wit = {"argv": argv, "out": os.path.basename(out)}
+            if res.exit_code != 0 or not os.path.exists(out):
+                ctx.violation("cli", f"`nuspacesim run` with {argv} -o {os.path.basename(out)}: exit code {res.exit_code}, output file {'missing' if not os.path.exists(out) else 'present'} ({res.exception!r})", wit)
+                continue
+            exp = cfg.model_copy(deep=True)
+            exp.simulation.thrown_events = 55
+            exp.simulation.spectrum = exp_spec
+            if k % 3 == 1:
+                exp.simulation.cloud_model = Simulation.MonoCloud(altitude=2.5)
+            try:
+                from astropy.table import Table as _Tab
+
+                tb = _Tab.read(out, format="fits")
+                c2 = config_from_fits_public(out)
+            except Exception as e:
+                ctx.exception("cli", f"the file written by `nuspacesim run` {argv} cannot be reloaded", e, wit)
+                continue
+            probs = []
+            if c2.simulation.thrown_events != 55:
+                probs.append(f"thrown_events {c2.simulation.thrown_events} (expected 55)")
+            if c2.simulation.spectrum != exp_spec:
+                probs.append(f"spectrum {c2.simulation.spectrum!r} (expected {exp_spec!r})")
+            if abs(c2.detector.initial_position.longitude - (-2.0)) > 1e-15 or abs(c2.detector.initial_position.latitude - 0.3) > 1e-15:
+                probs.append("detector position")
+            if "log_e_nu" not in tb.colnames or "OMCINT" not in {x.upper() for x in tb.meta}:
+                probs.append("results columns / integral keywords missing from the file")
+            if probs:
+                ctx.violation("cli", f"`nuspacesim run` {argv}: the results file does not describe the run: " + "; ".join(probs), wit)
+            ctx.distinct.add(("cli", tuple(argv), os.path.basename(out)))
     finally:
         shutil.rmtree(work, ignore_errors=True)
-    for m in ("columns", "header", "complete", "reconstruct", "real-runs"):
+    for m in ("columns", "header", "complete", "reconstruct", "real-runs", "cli-run"):
         ctx.require(m)
     return ctx.finish(
         rule="tables = results_table.init(config) + synthetic columns of every stored dtype (float64, float32, int64, 2-D EFields, Time) for seeded configurations (ASCII strings, finite numbers, both spectrum types, all cloud variants, lat != lon), one third with 17-significant-digit floats and two thirds with short-text floats (for which everything must be exact), plus tables returned by real small compute() runs in both modes; a case is a distinct (configuration, table)",
